@@ -25,6 +25,7 @@ const (
 	RandomWalk        // preempt after a drawn gap, resume a uniformly drawn runnable task
 	PCT               // random priorities, d priority change points
 	RoundRobin        // preempt at every yield point, cyclic order
+	Rendezvous        // hold every task that reaches a chosen site until nothing else can run: as many tasks as possible are inside that region at once
 )
 
 type Config struct {
@@ -32,6 +33,7 @@ type Config struct {
 	MeanGap  int // RandomWalk: mean number of yield points between preemptions
 	PCTDepth int // PCT: number of priority change points
 	Horizon  int // PCT: estimated number of yield points of the run
+	Site     int // Rendezvous: the yield site at which tasks are held
 	Stall    int // number of tasks (drawn) that are held back until nothing else can run
 	MaxSteps int
 }
@@ -148,7 +150,7 @@ func (s *Sched) drawGap() int {
 	case RoundRobin:
 		return 1
 	}
-	return 1 << 60
+	return 1 << 60 // Sequential, PCT, Rendezvous: no gap-driven preemption
 }
 
 // pick chooses the task to run next. cur may be nil or finished.
@@ -193,6 +195,22 @@ func (s *Sched) Yield(site int) {
 		return
 	}
 	preempt := false
+	if s.cfg.Strategy == Rendezvous {
+		if site == s.cfg.Site {
+			// park here; runnable() prefers tasks that are not held, so this one resumes
+			// only when every other task is held too, finished, or waiting for one of them
+			t.stalled = true
+			t.parked = site
+			if r := s.runnable(); !(len(r) == 1 && r[0] == t) {
+				raceDisable()
+				s.ctl <- event{}
+				<-t.wake
+				raceEnable()
+			}
+			t.stalled = false
+		}
+		return
+	}
 	if s.cfg.Strategy == PCT {
 		if s.pctAt[s.steps] {
 			s.lowest--
